@@ -8,6 +8,9 @@ A == INSTANCE AesCtr
 D == INSTANCE DH
 G == INSTANCE Drbg
 V == INSTANCE SigV4
+R == INSTANCE Sha256Ref      \* FIPS 180-4 in plain TLA+: decides the short SHA-256 messages, the JDK digest the long ones
+REFMAX == 200
+X == INSTANCE AesRef         \* FIPS 197 in plain TLA+: decides the single-block calls together with the JDK cipher
 VARIABLES st, inst, ent       \* DRBG state, instantiated?, entropy answers since the last read
 vars == <<l, st, inst, ent>>
 Init == l = 1 /\ st = G!Fresh /\ inst = FALSE /\ ent = <<>>
@@ -21,6 +24,7 @@ Sums(cuts, i, acc) == IF i > Len(cuts) THEN <<>> ELSE <<acc + cuts[i]>> \o Sums(
 THash == /\ IsEvent("hash") /\ Keep
          /\ LET m == B(Ev.msg)  d == H!Digest(Ev.alg, m) IN
             /\ B(Ev.digest) = d /\ B(Ev.oneshot) = d
+            /\ (Ev.alg = "sha256" /\ Len(m) <= REFMAX) => d = R!Sha256Ref(m)
             /\ Ev.counts = Sums(Ev.cuts, 1, 0)
             /\ Ev.zero
 THmac == /\ IsEvent("hmac") /\ Keep
@@ -28,7 +32,8 @@ THmac == /\ IsEvent("hmac") /\ Keep
 TPbkdf2 == IsEvent("pbkdf2") /\ Keep /\ B(Ev.out) = H!Pbkdf2(B(Ev.pass), B(Ev.salt), Ev.c, Ev.dklen)
 TCrc == IsEvent("crc") /\ Keep /\ H!CrcOK(B(Ev.msg), B(Ev.out))
 \* C02
-TAes == IsEvent("aes") /\ Keep /\ B(Ev.out) = AESEncryptBlock(B(Ev.key), B(Ev.in)) /\ Ev.tainted = 0
+TAes == /\ IsEvent("aes") /\ Keep /\ B(Ev.out) = AESEncryptBlock(B(Ev.key), B(Ev.in)) /\ Ev.tainted = 0
+        /\ B(Ev.out) = X!AesRefEncrypt(B(Ev.key), B(Ev.in))
 \* stream calls: one byte position explains every call; re-initialising restarts the keystream
 RECURSIVE CtrOut(_, _, _, _, _, _)
 CtrOut(key, nonce, pos, calls, i, input) ==
